@@ -390,17 +390,12 @@ Proof. exact events_of_line. Qed.
 Print Assumptions c06_event_of_a_line.
 
 (* --- streams (which 9 | 10: the real file Plugin as the pipeline's input, a job resumed from the saved offsets of several
-   streams). dc = ANY decoder function (admitted bytes -> stream name, payload, partial flag; None = undecodable), sv = ANY
+   streams). dc = ANY decoder function (accepted bytes -> stream name, payload, partial flag; None = undecodable), sv = ANY
    table of saved stream offsets, sc = the CRI short-cut of Pipeline.In on / off.
-     pass_event sv s off   Plugin.PassEvent: no saved offset for s, or saved(s) < off
-     sdecoded dc c es      the (offset, stream, payload) of the admitted, decodable ones among the (offset, data) pairs es
-     sdeliver dc sc sv c es  what reaches the output: short-cut, then PassEvent, on every admitted decoded line
+     pass_event sv s off   Plugin.PassEvent: above (saved_get sv s) off, i.e. no saved offset for s, or saved(s) < off
+     sdecoded dc c es      the (offset, stream, payload) of the accepted, decodable ones among the (offset, data) pairs es
+     sdeliver dc sc sv c es  what reaches the output: short-cut, then PassEvent, on every accepted decoded line
      passed sv e           pass_event sv (stream of e) (offset of e);   of_stream s e   e belongs to stream s ------------- *)
-Theorem c06_pass_event_rule :
-  forall sv s off, pass_event sv s off = match saved_get sv s with None => true | Some o => o <? off end.
-Proof. exact pass_event_rule. Qed.
-Print Assumptions c06_pass_event_rule.
-
 (* the line that ends exactly AT the saved offset of its stream - the last one committed before the restart - is not
    delivered again; exactly the offsets above it are *)
 Theorem c06_line_at_the_saved_offset_is_not_delivered_again :
@@ -420,7 +415,7 @@ Proof. exact sdeliver_shortcut_irrelevant. Qed.
 Print Assumptions c06_in_shortcut_is_never_a_decision.
 
 (* every configuration, start offset, pass and read structure, decoder, table of saved offsets: the events of stream s that
-   reach the output = the complete lines of s in the content (admitted, decodable) that end ABOVE saved(s) - all of them
+   reach the output = the complete lines of s in the content (accepted, decodable) that end ABOVE saved(s) - all of them
    when s has no saved offset -, in order *)
 Theorem c06_stream_gets_exactly_its_lines_above_the_saved_offset :
   forall dc sc sv c o sk0 rs s, 0 <= wmax c ->
@@ -476,6 +471,18 @@ Theorem c06_lz4_stream_events :
   = filter (passed sv) (sdecoded dc nolimit (with_off m (fst (split_lines (drop m content))))).
 Proof. exact lz4_stream_events. Qed.
 Print Assumptions c06_lz4_stream_events.
+
+(* the predicate the correspondence check applies to what the implementation did (s_pred: after every pass everything delivered
+   so far = the PassEvent-rule filter of the specification's lines behind the start position, position and tail the
+   specification's) holds of every run of the model: any decoder, any saved offsets whose minimum lies inside what the file
+   holds when the job is added, any appends and read buffer sizes *)
+Theorem c06_streams_model_satisfies_the_check_predicate :
+  forall dc sc c sv pre rl, 0 <= wmax c ->
+  0 <= s_start sv <= len pre -> Forall (fun r : bytes * nat => (0 < snd r)%nat) rl ->
+  s_pred dc sc c (s_start sv) sv pre [] rl
+         (map sx_of_spass (s_trace dc sc c {| cur := s_start sv; tail := []; skip := false |} sv pre rl)) = true.
+Proof. exact streams_model_satisfies_pred. Qed.
+Print Assumptions c06_streams_model_satisfies_the_check_predicate.
 
 (* non-vacuity: five json lines of 24 bytes, streams a b a b a; the previous run committed a through line 3 (offset 72) and
    b through line 2 (offset 48): reading restarts at 48, lines 3 4 5 are read, line 3 (a, ends AT 72) is recognised as
